@@ -3,8 +3,9 @@
    `anG` performs exactly the operations of `an` (Analyzer.v) on the same state, but it
    never READS the result map: wherever the Rust code calls `get_end_reason(k)`, `anG`
    uses a value that the analysis of the sub-statement returned ("ghost" end reason).
-   It also returns a log of the `unreachable` flags it wrote and of the end reason of
-   every element of every statement list (what no-fallthrough consults).
+   It also returns a log: for every statement, whether the scope was dead when it was
+   visited and the `unreachable` flag written; for every switch case, whether one of its
+   top-level statements "stops execution" (what no-fallthrough consults).
 
    SoundnessMap.v proves that under `wf` (pairwise distinct keys) `anG` and `an` compute
    the same state and the ghost values are the values in the map; SoundnessInv.v proves
@@ -13,8 +14,11 @@
 From V Require Export CF.Analyzer.
 
 Inductive gent :=
-| GFlag (k : N) (unreachable : bool)     (* visit_stmt wrote info[k].unreachable *)
-| GTop (k : N) (r : option End).         (* k = position of an element of a statement list, r = info[k].end after it *)
+| GStmt (k : N) (dead_before : bool) (unreachable : bool)
+    (* visit_stmt at position k: was the scope's end Forced/Break, and the flag written to info[k].unreachable *)
+| GCase (b : stmts) (live_before : bool) (stops : bool).
+    (* a switch case with consequent b: was the scope live at the switch, and does one of the top-level
+       statements of b have an end reason that stops execution (what no-fallthrough consults) *)
 
 (* the value that `mark_as_end(k, e)` writes into info[k].end when the scope's end is `cur` *)
 Definition mark_val (cur : option End) (e : End) : option End :=
@@ -24,7 +28,9 @@ Definition mark_val (cur : option End) (e : End) : option End :=
   end.
 
 Definition gres := (st * option End * list gent)%type.
-Definition gres_l := (st * list gent)%type.
+(* for a statement list: the end reasons of its elements (after visit_stmt_or_block), in order *)
+Definition gres_l := (st * list (option End) * list gent)%type.
+Definition tops_stop (tops : list (option End)) : bool := existsb dead tops.
 
 Section WithFixes.
 Variable fx : fixes.
@@ -38,7 +44,7 @@ Definition with_childG (k : kind) (start : N) (op : st -> gres) (x : st) : gres 
   let '(c, r, lg) := op (child_enter k x) in (child_exit fx k start x c, r, lg).
 
 Definition block_endG (p : N) (r : gres_l) : gres :=
-  let '(y, lg) := r in
+  let '(y, _, lg) := r in
   (block_end p y, mark_val (s_end (sc y)) (match s_end (sc y) with Some e => e | None => EContinue end), lg).
 
 Definition fn_likeG (p pb : N) (body : st -> gres_l) (x : st) : gres :=
@@ -118,14 +124,15 @@ Definition visit_switchG (p : N) (cs : cases) (opc : st -> st * list (option End
   let e := switch_end (switch_forcedG rs (Some (Forced false false false))) (has_default cs) in
   (switch_tail e p prev_end x1, mark_val (s_end (sc x1)) e, lg).
 
-Definition visit_caseG (cp : N) (cons : st -> gres_l) (y : st) : gres :=
+Definition visit_caseG (cp : N) (b : stmts) (cons : st -> gres_l) (y : st) : gres :=
   let prev_end := s_end (sc y) in
-  let '(c, lg) := cons (child_enter KCase y) in
+  let '(c, tops, lg) := cons (child_enter KCase y) in
   let y1 := child_exit fx KCase cp y c in
   let e := case_end_of (sc c) in
-  (set_end (mark_as_end cp e y1) prev_end, mark_val (s_end (sc y1)) e, lg).
+  (set_end (mark_as_end cp e y1) prev_end, mark_val (s_end (sc y1)) e,
+   GCase b (live_now y) (tops_stop tops) :: lg).
 
-Definition try_handlerG (cp hbp : N) (prev_end : option End) (hb : st -> gres_l) (x : st) : gres_l :=
+Definition try_handlerG (cp hbp : N) (prev_end : option End) (hb : st -> gres_l) (x : st) : st * list gent :=
   let try_block_end := s_end (sc x) in
   let try_block_may_throw := s_mt (sc x) in
   let x := if try_block_may_throw then set_end x prev_end else x in
@@ -133,7 +140,7 @@ Definition try_handlerG (cp hbp : N) (prev_end : option End) (hb : st -> gres_l)
   let '(x, _, lg) := with_childG KCatch cp (fun a => block_endG hbp (hb a)) x in
   (if try_block_may_throw then try_catch_merge try_block_end x else set_end x try_block_end, lg).
 
-Definition try_finalizerG (fp : N) (prev_end : option End) (fb : st -> gres_l) (x : st) : gres_l :=
+Definition try_finalizerG (fp : N) (prev_end : option End) (fb : st -> gres_l) (x : st) : st * list gent :=
   let try_catch_end := s_end (sc x) in
   let x := set_end x prev_end in
   let '(x, _, lg) := with_childG KFinally fp (fun a => block_endG fp (fb a)) x in
@@ -154,7 +161,7 @@ Definition gcons (g : gent) (r : gres) : gres := let '(y, rs, lg) := r in (y, rs
 
 Fixpoint anG (s : stmt) (x0 : st) {struct s} : gres :=
   let x := set_unreach (pos s) (stmt_unreachable s x0) x0 in
-  gcons (GFlag (pos s) (stmt_unreachable s x0))
+  gcons (GStmt (pos s) (dead_now x0) (stmt_unreachable s x0))
   match s with
   | SExpr p e => (visit_e e x, None, [])
   | SEmpty p => (x, None, [])
@@ -180,17 +187,17 @@ Fixpoint anG (s : stmt) (x0 : st) {struct s} : gres :=
   end
 with anG_list (l : stmts) (y : st) {struct l} : gres_l :=
   match l with
-  | SNil => (y, [])
+  | SNil => (y, [], [])
   | SCons t r =>
       let '(y1, r1, lg1) := orbG t (anG t y) in
-      let '(y2, lg2) := anG_list r y1 in
-      (y2, lg1 ++ GTop (pos t) r1 :: lg2)
+      let '(y2, tops, lg2) := anG_list r y1 in
+      (y2, r1 :: tops, lg1 ++ lg2)
   end
 with anG_cases (cs : cases) (y : st) {struct cs} : st * list (option End) * list gent :=
   match cs with
   | CNil => (y, [], [])
   | CCons cp _ _ cns r =>
-      let '(y1, r1, lg1) := visit_caseG cp (anG_list cns) y in
+      let '(y1, r1, lg1) := visit_caseG cp cns (anG_list cns) y in
       let '(y2, rs, lg2) := anG_cases r y1 in
       (y2, r1 :: rs, lg1 ++ lg2)
   end.
@@ -199,16 +206,3 @@ Definition analyzeG (p : program) : gres := block_endG (p_pb p) (anG_list (p_bod
 
 End WithFixes.
 
-(* decisions in terms of the ghost outputs *)
-Fixpoint log_flag (lg : list gent) (k : N) : bool :=
-  match lg with
-  | [] => false
-  | GFlag k' b :: r => if N.eqb k k' then b else log_flag r k
-  | _ :: r => log_flag r k
-  end.
-Fixpoint log_top (lg : list gent) (k : N) : option End :=
-  match lg with
-  | [] => None
-  | GTop k' e :: r => if N.eqb k k' then e else log_top r k
-  | _ :: r => log_top r k
-  end.
